@@ -999,6 +999,7 @@ func FeasiblePaths(f *ssa.Function, limit int) ([][]*ssa.BasicBlock, bool) {
 		}
 		return false, false
 	}
+	decided := map[ssa.Value]bool{}
 	var dfs func(b *ssa.BasicBlock)
 	dfs = func(b *ssa.BasicBlock) {
 		if !ok || on[b] {
@@ -1014,15 +1015,26 @@ func FeasiblePaths(f *ssa.Function, limit int) ([][]*ssa.BasicBlock, bool) {
 				ok = false
 			}
 		case *ssa.If:
+			// the same SSA value tested twice on one acyclic path has the same truth value both times
+			nc := Normalize(Cond{V: x.Cond, True: true})
 			if val, known := constOnPath(x.Cond); known {
 				if val {
 					dfs(b.Succs[0])
 				} else {
 					dfs(b.Succs[1])
 				}
+			} else if prev, seen := decided[nc.V]; seen {
+				if prev == nc.True {
+					dfs(b.Succs[0])
+				} else {
+					dfs(b.Succs[1])
+				}
 			} else {
+				decided[nc.V] = nc.True
 				dfs(b.Succs[0])
+				decided[nc.V] = !nc.True
 				dfs(b.Succs[1])
+				delete(decided, nc.V)
 			}
 		default:
 			for _, s := range b.Succs {
